@@ -278,6 +278,7 @@ def contexts(e):
         "cycle": [("assign", "z", e), ("cycle", [VAR("z"), VAR("y")]), ("text", "|"), ("cycle", [VAR("z"), VAR("y")])],
         "for": [("assign", "z", e), ("for", "i", z, [("text", "["), ("out", (VAR("i"), ())), ("text", "]")])],
         "for-split": [("for", "i", (e[0], e[1] + (("split", LIT("l")),)), [("out", (VAR("i"), ())), ("text", ".")])] if _kind(e) == "S" else None,
+        "for-list": [("for", "i", e, [("text", "["), ("out", (VAR("i"), (("append", VAR("y")),))), ("text", "]")])] if _kind(e) == "L" else None,
         "if": [("assign", "z", e), ("if", ("eq", VAR("z"), VAR("y")), [("text", "eq")], [("out", z)], "if"),
                ("if", ("truthy", VAR("z")), [("text", "t"), ("out", z)], [("text", "f")], "unless")],
         "case": [("assign", "z", e), ("if", ("eq", VAR("z"), VAR("y")), [("text", "eq")], [("out", z)], "case")],
@@ -288,7 +289,7 @@ def contexts(e):
 
 
 def _kind(e) -> str:
-    k = "S"
+    k = "L" if e[0] == ("var", "l") else "S"
     for f in e[1]:
         k = out_kind(k, f) or "L"
     return k
@@ -297,7 +298,7 @@ def _kind(e) -> str:
 # ----------------------------------------------------------------------------------------------- data
 DATA_FIXED = ["<a&b>", "a'b\"c", "&lt;", "&amp", "&#39;x", "a&lt;b&amp;c", "<l>&l;t", "  <b> ", "", "ab", "x&#34;&ap;&LT", "t;'&#3;&#9"]
 DATA_CLEAN = ["ab", "a b", "lt;", "amp", "a;b", "  ab ", "", "l", "alt;balt"]
-TOKENS = ["<", ">", "&", "'", '"', "a", "b", " ", "&lt;", "&amp", "&#39;", "lt;", ";", "l", "t", "&#34", "&LT;", "&ap;", "m", "p", "#", "3", "9"]
+TOKENS = ["<", ">", "&", "'", '"', "a", "b", " ", "&lt;", "&amp", "&#39;", "lt;", ";", "l", "t", "&#34", "&LT;", "&ap;", "m", "p", "&gt", "&#x27;", "+"]
 Y_VALUES = ["<", "&", "l", "t;", "", "a'"]
 
 
@@ -323,6 +324,77 @@ def measure_opaque(name: str, x: str):
     """The text function of strip_html / url_decode / base64_decode on x, read off an autoescape-off render (public API)."""
     r = render(False, "{{ x | " + name + " }}", {"x": x})
     return r[1] if r[0] == "out" else None
+
+
+# ----------------------------------------------------------------------------------------------- wider space, oracle only
+WIDE_SOURCES = [
+    "{% translate a: x %}Hello {{ a }}{% endtranslate %}",
+    "{% translate a: x, count: 2 %}Hello {{ a }}{% plural %}Hellos {{ a }} {{ count }}{% endtranslate %}",
+    "{{ x | t }}", "{{ 'Hello %(a)s' | t: a: x }}", "{{ x | t: a: y }}", "{{ x | gettext }}", "{{ 'a %(b)s' | gettext: b: x }}",
+    "{{ x | ngettext: y, 2 }}", "{{ 'one %(b)s' | ngettext: 'many %(b)s', 2, b: x }}", "{{ 'ctx' | pgettext: x }}", "{{ x | pgettext: 'm %(b)s', b: y }}",
+    "{% extends 'base' %}{% block b %}{{ block.super }} child {{ x }}{% endblock %}",
+    "{% extends 'base' %}{% block b %}{{ block.super | upcase | append: y }}{% endblock %}",
+    "{% extends 'base' %}{% block b %}{{ block.super | upcase | slice: 0, 7 }}{% endblock %}",
+    "{{ x if y else 'c' }}", "{{ 'a' if x else y | append: x }}", "{{ x if y else 'c' || upcase | append: y }}",
+    "{% macro m a, b: x %}{{ a }}{{ b }}{% endmacro %}{% call m y %}{% call m b: y %}",
+    "{% with a: x %}{{ a }}{{ a | append: y }}{% endwith %}",
+    "{% for i in l %}{{ forloop.index }}{{ i }}{% endfor %}", "{{ l | join: x }}", "{{ l | map: 'k' | join }}", "{{ d.k }}{{ d }}", "{{ l }}", "{{ d | json }}", "{{ x | json }}",
+    "{{ l | concat: l | uniq | join: y }}", "{{ l | where: 'k' }}", "{{ x | date: y }}", "{{ 'now' | date: y | size }}",
+    "{{ x | truncate: 3 }}", "{{ x | escape | truncate: 5, y }}", "{{ x | truncatewords: 1, y }}", "{{ x | squish }}", "{{ x | strip_newlines }}", "{{ x | url_encode }}",
+    "{{ x | base64_encode }}", "{{ x | escapejs }}", "{{ x | lstrip | rstrip | capitalize }}", "{{ x | replace_first: y, x }}", "{{ x | replace_last: y, x }}",
+    "{{ x | remove_first: y }}", "{{ x | remove_last: y }}", "{% ifchanged %}{{ x }}{% endifchanged %}", "{% increment n %}{{ n }}",
+    "{% case x %}{% when y %}a{% else %}{{ x }}{% endcase %}",
+    "{% assign z = x | split: '' %}{% for c in z %}{{ c }}{% endfor %}{{ z | reverse | join: '' }}",
+    "{% capture z %}{{ x }}{% endcapture %}{{ z | escape_once }}{{ z | url_decode }}{{ z | strip_html }}",
+    "{{ x | default: y }}{{ nosuch | default: x }}{{ x | size }}{{ x | at_least: 1 }}{{ x | plus: 1 }}",
+    "{% liquid\nassign z = x | append: y\necho z\nfor i in l\necho i\nendfor %}",
+    "{% unless x == y %}{{ x | prepend: y }}{% endunless %}", "{% cycle x, y, 'c' %}{% cycle x, y, 'c' %}",
+]
+_WIDE_ENV = None
+CUT_RE = re.compile(r"slice|split|remove|replace|truncate")
+
+
+def wide(ck: Check, seen: dict, n_random: int) -> None:
+    """translate, t filters, block.super, ternaries, macros, with, json, date ...: the oracle's scan only (no model)."""
+    global _WIDE_ENV
+    if _WIDE_ENV is None:
+        import liquid.extra as ex
+        from liquid import DictLoader, Environment
+
+        class Env(Environment):
+            ternary_expressions = True
+            logical_not_operator = True
+
+        _WIDE_ENV = Env(autoescape=True, loader=DictLoader({"base": "{% block b %}base {{ x }}{% endblock %}"}))
+        ex.add_tags(_WIDE_ENV)
+        ex.add_filters(_WIDE_ENV)
+    datas = [dict(x="<a&b>", y="'q\"&", l=["<i>", "a&", "'"], d={"k": "<v>&"}), dict(x="&lt;&amp", y="<", l=[{"k": "<1>"}, {"k": "&"}], d={"k": "'"}),
+             dict(x="%3Cb%3E&#39;", y="%Y<", l=["a"], d={})]
+    for _ in range(n_random):
+        mk = lambda: "".join(ck.rng.choice(TOKENS) for _ in range(ck.rng.randrange(1, 5)))  # noqa: E731
+        datas.append(dict(x=mk(), y=mk(), l=[mk(), mk()], d={"k": mk()}))
+    for src in WIDE_SOURCES:
+        try:
+            t = _WIDE_ENV.from_string(src)
+        except Exception as e:  # noqa: BLE001
+            ck.count("wide.parse-error")
+            continue
+        for d in datas:
+            for use_async in (False, True):
+                try:
+                    out = run_async(t.render_async(**d)) if use_async else t.render(**d)
+                except Exception:  # noqa: BLE001
+                    ck.count("wide.render-error")
+                    continue
+                ck.note_case(("wide", src, repr(d), use_async))
+                ck.count("wide.rendered")
+                raw, bad = scan(out)
+                if raw:
+                    _viol(ck, seen, "raw-special:wide:" + src[:60], f"{src!r} with {d!r} renders {out!r}: raw {raw}", True, src, d, ("out", out), kind="wide")
+                elif bad:
+                    m = CUT_RE.search(src)
+                    sig = "amp-not-entity:" + (m.group(0) if m else "unexpected:wide:" + src[:60])
+                    _viol(ck, seen, sig, f"{src!r} with {d!r} renders {out!r}: the & at {bad[:3]} starts no entity", True, src, d, ("out", out), kind="wide")
 
 
 # ----------------------------------------------------------------------------------------------- run
@@ -365,7 +437,7 @@ def _run(ck: Check, quick: bool) -> None:
 
     pool = filter_pool(not quick)
     all_chains = list(chains(pool, 2))
-    xs = data_sets(ck, 0 if quick else 28)
+    xs = data_sets(ck, 0 if quick else 16)
     if quick:
         xs = xs[:8]
     cases, expected, meta = [], [], []
@@ -422,7 +494,7 @@ def _run(ck: Check, quick: bool) -> None:
 
     # thorough: random chains of three
     if not quick:
-        for _ in range(30000):
+        for _ in range(12000):
             ch, kind = (), "S"
             while len(ch) < 3:
                 f = ck.rng.choice(pool)
@@ -496,6 +568,9 @@ def _run(ck: Check, quick: bool) -> None:
                 if on != off:
                     _viol(ck, seen_sig, "autoescape-changes-clean-output", f"{stmts_src(prog)!r} with {data!r}: on {on} off {off}", True, stmts_src(prog), data, on)
 
+    # E. the wider space (oracle only)
+    wide(ck, seen_sig, 6 if quick else 60)
+
     if meta:
         ck.sample({"autoescape": meta[len(meta) // 2][0], "template": meta[len(meta) // 2][1], "data": repr(meta[len(meta) // 2][2]), "output": meta[len(meta) // 2][3][1]})
         ck.sample({"autoescape": meta[7][0], "template": meta[7][1], "data": repr(meta[7][2]), "output": meta[7][3][1]})
@@ -533,7 +608,14 @@ def _run(ck: Check, quick: bool) -> None:
 def _jsonable(data):
     from markupsafe import Markup
 
-    return {k: ({"markup": str(v)} if isinstance(v, Markup) else ([str(i) for i in v] if isinstance(v, list) else v)) for k, v in data.items()}
+    def one(v):
+        if isinstance(v, Markup):
+            return {"markup": str(v)}
+        if isinstance(v, list):
+            return [one(i) if isinstance(i, Markup) else i for i in v]
+        return v
+
+    return {k: one(v) for k, v in data.items()}
 
 
 def _all_filters(prog):
@@ -556,23 +638,31 @@ def _chain_sig(prog) -> str:
     return "|".join(_all_filters(prog))[:80]
 
 
-def _viol(ck, seen, sig, what, ae, src, data, r):
+def _viol(ck, seen, sig, what, ae, src, data, r, kind="render"):
     seen[sig] = seen.get(sig, 0) + 1
     ck.count("oracle." + sig.split(":")[0])
     if seen[sig] > 2:
         return
-    ck.violation("impl-violation", sig, what, {"type": "render", "autoescape": ae, "template": src, "data": _jsonable(data), "observed": r})
+    ck.violation("impl-violation", sig, what, {"type": kind, "autoescape": ae, "template": src, "data": _jsonable(data), "observed": r})
 
 
 def replay(data) -> int:
     from markupsafe import Markup
 
     case = data["case"]
-    if case.get("type") != "render":
+    if case.get("type") not in ("render", "wide"):
         print("replay names a proof/correspondence obligation:", case)
         return 1
-    d = {k: (Markup(v["markup"]) if isinstance(v, dict) else v) for k, v in case["data"].items()}
-    r = render(case["autoescape"], case["template"], d)
+    d = {k: (Markup(v["markup"]) if isinstance(v, dict) and "markup" in v else v) for k, v in case["data"].items()}
+    if case["type"] == "wide":
+        ck = type("K", (), {"rng": __import__("random").Random(0), "count": lambda *a, **k: None, "note_case": lambda *a, **k: None})()
+        wide(ck, {}, 0)  # builds the environment
+        try:
+            r = ("out", _WIDE_ENV.from_string(case["template"]).render(**d))
+        except Exception as e:  # noqa: BLE001
+            r = ("err", classify_exc(e))
+    else:
+        r = render(case["autoescape"], case["template"], d)
     print("template:", case["template"], "data:", d, "autoescape:", case["autoescape"])
     print("rendered:", r)
     bad = False
